@@ -8,6 +8,7 @@ import (
 	"go/types"
 	"math"
 	"sort"
+	"strconv"
 	"strings"
 
 	"golang.org/x/tools/go/packages"
@@ -1551,12 +1552,11 @@ func (ev *Evaluator) native(pos token.Pos, fn *types.Func, recv Value, args []Va
 	case "strconv.Atoi":
 		s := argStr(0)
 		if s.IsConst() {
-			n := int64(0)
-			_, err := fmt.Sscanf(s.Const(), "%d", &n)
-			if err != nil || fmt.Sprint(n) != s.Const() {
+			n, err := strconv.Atoi(s.Const())
+			if err != nil {
 				return Tuple{K(0), ErrVal{Msg: S("atoi")}}, true
 			}
-			return Tuple{K(n), Nil{}}, true
+			return Tuple{K(int64(n)), Nil{}}, true
 		}
 		n := s.norm()
 		if len(n.Parts) == 1 && n.Parts[0].Itoa != nil {
@@ -1595,6 +1595,68 @@ func (ev *Evaluator) native(pos token.Pos, fn *types.Func, recv Value, args []Va
 			return S(strings.ToUpper(s.Const())), true
 		}
 		return SSym("upper(" + s.String() + ")"), true
+	case "strings.Fields":
+		s := argStr(0)
+		if !s.IsConst() {
+			ev.fail(pos, "Fields of symbolic string")
+		}
+		fs := strings.Fields(s.Const())
+		out := make([]Value, len(fs))
+		for i, f := range fs {
+			out[i] = S(f)
+		}
+		return NewSlice(out...), true
+	case "strings.Split":
+		s, sep := argStr(0), argStr(1)
+		if !s.IsConst() || !sep.IsConst() {
+			ev.fail(pos, "Split of symbolic string")
+		}
+		fs := strings.Split(s.Const(), sep.Const())
+		out := make([]Value, len(fs))
+		for i, f := range fs {
+			out[i] = S(f)
+		}
+		return NewSlice(out...), true
+	case "strings.TrimSpace", "strings.ToLower":
+		s := argStr(0)
+		if !s.IsConst() {
+			ev.fail(pos, "%s of symbolic string", full)
+		}
+		if full == "strings.ToLower" {
+			return S(strings.ToLower(s.Const())), true
+		}
+		return S(strings.TrimSpace(s.Const())), true
+	case "strings.HasPrefix", "strings.HasSuffix", "strings.Contains", "strings.TrimPrefix", "strings.TrimSuffix", "strings.TrimLeft", "strings.TrimRight", "strings.ReplaceAll_":
+		a, b := argStr(0), argStr(1)
+		if !a.IsConst() || !b.IsConst() {
+			ev.fail(pos, "%s of symbolic string", full)
+		}
+		switch full {
+		case "strings.HasPrefix":
+			return strings.HasPrefix(a.Const(), b.Const()), true
+		case "strings.HasSuffix":
+			return strings.HasSuffix(a.Const(), b.Const()), true
+		case "strings.Contains":
+			return strings.Contains(a.Const(), b.Const()), true
+		case "strings.TrimPrefix":
+			return S(strings.TrimPrefix(a.Const(), b.Const())), true
+		case "strings.TrimSuffix":
+			return S(strings.TrimSuffix(a.Const(), b.Const())), true
+		case "strings.TrimLeft":
+			return S(strings.TrimLeft(a.Const(), b.Const())), true
+		case "strings.TrimRight":
+			return S(strings.TrimRight(a.Const(), b.Const())), true
+		}
+	case "strconv.ParseFloat":
+		s := argStr(0)
+		if !s.IsConst() {
+			ev.fail(pos, "ParseFloat of symbolic string")
+		}
+		f, err := strconv.ParseFloat(s.Const(), 64)
+		if err != nil {
+			return Tuple{FConst(0), ErrVal{Msg: S("parsefloat")}}, true
+		}
+		return Tuple{FConst(f), Nil{}}, true
 	case "strings.Repeat":
 		s, n := argStr(0), argLin(1)
 		if s.IsConst() && n.IsConst() && n.C >= 0 {
